@@ -1,5 +1,5 @@
 use fbrv::args::Args;
-use fbrv::engines::{transport_eng, wire_eng};
+use fbrv::engines::{transport_eng, vfs_eng, wire_eng};
 
 fn main() {
     let args = Args::parse();
@@ -14,6 +14,8 @@ fn main() {
         "C03" => wire_eng::c03(&args),
         "C12" => wire_eng::c12(&args),
         "C04" => transport_eng::run(&args, "C04"),
+        "C07" => vfs_eng::run(&args, "C07"),
+        "C14" => vfs_eng::run(&args, "C14"),
         "C17" => transport_eng::run(&args, "C17"),
         p => {
             eprintln!("unknown property {}", p);
